@@ -12,24 +12,26 @@ import (
 
 // zzImpl records what the generated stub hands to the implementation and answers with harness-chosen values.
 type zzImpl struct {
-	calls   int
-	a8      int8
-	b8      uint8
-	c16     int16
-	d16     uint16
-	a32     int32
-	b32     uint32
-	c64     int64
-	d64     uint64
-	flag    bool
-	f32     float32
-	f64     float64
-	str     string
-	ret8    int8
-	ret64   uint64
-	retStr  string
-	retBool bool
-	retF64  float64
+	pairI, retI int32
+	pairS, retS string
+	calls       int
+	a8          int8
+	b8          uint8
+	c16         int16
+	d16         uint16
+	a32         int32
+	b32         uint32
+	c64         int64
+	d64         uint64
+	flag        bool
+	f32         float32
+	f64         float64
+	str         string
+	ret8        int8
+	ret64       uint64
+	retStr      string
+	retBool     bool
+	retF64      float64
 }
 
 func (z *zzImpl) Activate(activation bus.Activation, helper ScalarsSignalHelper) error { return nil }
@@ -55,6 +57,20 @@ func (z *zzImpl) Flip(a bool) (bool, error) {
 	z.flag = a
 	return z.retBool, nil
 }
+func (z *zzImpl) Pair(t struct {
+	Param0 int32
+	Param1 string
+}) (struct {
+	Param0 string
+	Param1 int32
+}, error) {
+	z.calls++
+	z.pairI, z.pairS = t.Param0, t.Param1
+	return struct {
+		Param0 string
+		Param1 int32
+	}{z.retS, z.retI}, nil
+}
 func (z *zzImpl) Half(a float32) (float64, error) {
 	z.calls++
 	z.f32 = a
@@ -73,7 +89,28 @@ func C05Scalars() {
 		// the generated WithContext proxy must address the same service and object
 		p = p.WithContext(context.Background())
 	}
-	switch sym.Choose("method", 6) {
+	switch sym.Choose("method", 7) {
+	case 6:
+		// a tuple (an unnamed struct in the generated code) as argument and as result, after a call
+		// that returns nothing (another unnamed struct went through the codec first) or before one
+		voidFirst := sym.Bool("void-call-first")
+		if voidFirst {
+			sym.Assert(p.Nothing() == nil, "pair/void-call-ok")
+		}
+		im.retS, im.retI = sym.Str("rs", 1), sym.I32("ri")
+		var t struct {
+			Param0 int32
+			Param1 string
+		}
+		t.Param0, t.Param1 = sym.I32("ti"), sym.Str("ts", 2)
+		got, err := p.Pair(t)
+		sym.Assert(err == nil, "pair/call-ok")
+		sym.Assert(sym.And(im.pairI == t.Param0, sym.EqStr(im.pairS, t.Param1)), "pair/arguments")
+		sym.Assert(sym.And(sym.EqStr(got.Param0, im.retS), got.Param1 == im.retI), "pair/result")
+		if !voidFirst {
+			sym.Assert(p.Nothing() == nil, "pair/void-call-after-ok")
+		}
+		im.calls--
 	case 0:
 		a, b, c, d := sym.I8("a"), sym.U8("b"), sym.I16("c"), sym.U16("d")
 		im.ret8 = sym.I8("ret")
